@@ -41,6 +41,9 @@ ASSUMPTIONS = [
 
 TOKENS = ["<%", "%>", "</%", "${", "}", "%", "%%", "##", "\\", "\n", "\r\n", "\r", '"', "'", "|", ">", "/", "<",
           "$", "#", "{", "<%text>", "</%text>", "<%doc>", "</%doc>", " ", "a", "# coding:x\n"]
+# second alphabet: whitespace characters that are NOT indentation for "%" / "##" lines (only space and tab are), at
+# every position where the lexer stands at a line start with or without a text run in progress
+TOKENS2 = ["\x0c", "\xa0", "\x0b", "\u2003", "%", "##", "\n", "\\", "a", " ", "\t", "% if 1:\n", "% endif\n", "## c\n"]
 OPENERS = {"<%", "</%", "${", "%", "%%", "##", "\\", "<%text>", "<%doc>", "</%text>", "</%doc>"}
 
 
@@ -109,7 +112,7 @@ def check_string(text, ev=None, render=True):
 
 
 # ---- (a) sweep -----------------------------------------------------------
-def shard_sweep(task):
+def shard_sweep(task, TOKENS=TOKENS):
     k, idx, of, wrap = task
     core.setup_repo()
     ev = core.Evidence()
@@ -137,6 +140,10 @@ def shard_sweep(task):
     if idx == 0:
         ev.sample({"part": "a", "text": s, "result": lab}, "sweep%d" % k)
     return ev, list(fails.values())
+
+
+def shard_sweep2(task):
+    return shard_sweep(task, TOKENS2)
 
 
 # ---- (b) documents -------------------------------------------------------
@@ -534,6 +541,7 @@ def run(ctx):
             of = 1 if k <= 2 else (16 if k == 3 else (64 if k == 4 else 512))
             tasks += [(k, i, of, not ctx.quick and k <= 4) for i in range(of)]
         ctx.pmap(shard_sweep, tasks)
+        ctx.pmap(shard_sweep2, [(k, i, 16 if k >= 4 else 1, False) for k in range(1, ctx.pick(4, 5) + 1) for i in range(16 if k >= 4 else 1)])
         ev.notes["sweep_k"] = kmax
     if part in (None, "b"):
         n = ctx.pick(150, 4000)
